@@ -394,8 +394,11 @@ func (r *Run) applyDeleted(kind string, req []int64, got []Msg, gotOffs []int64,
 }
 
 func (r *Run) execOp(op *Op) {
-	if r.L == nil && op.K != "reopen" && !(r.H.OnOp != nil) {
-		return
+	if r.L == nil {
+		switch op.K {
+		case "pub", "del", "delmulti", "trim_off", "trim_cnt", "trim_size", "trim_age", "cmp_upd", "cmp_del", "compact", "gc", "sync":
+			return
+		}
 	}
 	ctx := context.Background()
 	switch op.K {
